@@ -1,7 +1,7 @@
 (* C05 — progress resumes once a quorum of honest replicas is synchronous (PARTIAL). *)
 From Coq Require Import List NArith ZArith.
 From HS Require Import Quorum.QuorumModel Protocol.Core Protocol.Chained Protocol.ChainedExec Protocol.ChainedExecProofs Protocol.SyncRun Protocol.SyncProof.
-From HS Require Protocol.Resume.
+From HS Require Protocol.Resume Protocol.ResumeFast Protocol.Fast Protocol.FastExecProofs.
 Import ListNotations.
 Open Scope N_scope.
 
@@ -98,6 +98,35 @@ Proof.
   exact (Resume.steps_reach rs (member replicas) (honest byz) (qsize replicas) genesis).
 Qed.
 Print Assumptions C05_continuation_is_reachable.
+
+(* The same for Fast-HotStuff: from any reachable state, for every quorum Q of honest members
+   there is a continuation in which every member of Q signs a timeout for a common view reporting
+   the highest certified block Q has built on, the next leader's block B1 is justified by the
+   resulting aggregate certificate and voted by Q, B2 extends B1 in the next view and is voted by
+   Q, and every member of Q commits the new block B1 -- two views after the view change.  The
+   implementation does not follow this path (known finding: its aggregate timeout rule ignores
+   plain QCs); the theorem shows the protocol rules themselves are live. *)
+Theorem C05_fast_progress_can_resume_from_any_state_partial :
+  forall replicas byz genesis,
+    config_ok replicas byz genesis = true ->
+    forall (Q : list rid) s,
+      Fast.reach (member replicas) (honest byz) (qsize replicas) genesis s ->
+      NoDup Q -> (qsize replicas <= length Q)%nat ->
+      (forall r, In r Q -> member replicas r = true /\ honest byz r = true) ->
+      exists s' B1 B2,
+        ResumeFast.steps (member replicas) (honest byz) (qsize replicas) genesis s s' /\
+        Fast.U s (b_hash B1) = None /\
+        Fast.two_chain (member replicas) (qsize replicas) genesis s' B1 B2 /\
+        forall r, In r Q ->
+          exists l', Fast.f_log (Fast.loc genesis s' r) = Fast.f_log (Fast.loc genesis s r) ++ l' ++ [B1].
+Proof.
+  intros replicas byz genesis Hc.
+  destruct (cfg_parts replicas byz genesis Hc) as (_ & _ & _ & Gv & Gp & Gq).
+  exact (ResumeFast.fast_progress_resumes_from_any_state (member replicas) (honest byz) (qsize replicas)
+           (quorum_inter_inst replicas byz genesis Hc) (quorum_has_honest_inst replicas byz genesis Hc)
+           genesis Gv Gp).
+Qed.
+Print Assumptions C05_fast_progress_can_resume_from_any_state_partial.
 
 (* Fault-free synchronous run, unbounded: for either ruleset, every cluster size n >= 1 (replicas
    1..n, none faulty) and every number of views k, the abstract system has a reachable state — the
